@@ -414,6 +414,9 @@ func genKey(t *rapid.T, depth int) *recipe.Node {
 func genCase(t *rapid.T) Case {
 	c := Case{Wrap: rapid.SampledFrom([]string{"T", "map"}).Draw(t, "wrap"), ViaFunc: rapid.Bool().Draw(t, "viafunc"), Prefix: rapid.SampledFrom([]string{"", "", "pkg"}).Draw(t, "prefix")}
 	n := rapid.IntRange(0, 20).Draw(t, "npairs")
+	if rapid.IntRange(0, 24).Draw(t, "manypairs") == 0 {
+		n = rapid.SampledFrom([]int{31, 32, 33, 63, 64, 65, 100, 127, 128, 129, 257}).Draw(t, "npairsmany")
+	}
 	for i := 0; i < n; i++ {
 		p := PairSpec{ID: i}
 		if rapid.IntRange(0, 3).Draw(t, "dupkey") == 0 && len(c.Pairs) > 0 {
